@@ -8,7 +8,7 @@ From GL Require Import Base.Bytes Base.BytesProofs Base.Varint Base.Order Base.O
   Codec.Table Codec.TableCheck Codec.TableSizes Codec.Batch Lsm.Lsm Lsm.Compact Lsm.LsmProofs Lsm.CompactProofs
   Lsm.History Lsm.HistoryProofs Lsm.ReorgProofs Lsm.Pick Lsm.PickBase Lsm.WfLsm Lsm.C06Steps Lsm.Builder Lsm.BuilderCuts
   Lsm.ReadPath Lsm.ReadPathKey Lsm.ReadPathMem Lsm.ReadPathProofs Lsm.BatchWriteProofs
-  Lsm.WritePath Lsm.WritePathTable Lsm.WritePathMem Lsm.WritePathInstall Lsm.WritePathSteps.
+  Lsm.WritePath Lsm.WritePathTable Lsm.WritePathMem Lsm.WritePathInstall Lsm.WritePathSteps Lsm.WritePathTxn.
 From GL Require Mem.MemDB.
 From Coq Require Import Arith ZArith Lia Sorted.
 Open Scope N_scope.
@@ -69,7 +69,13 @@ Section HistoryBytes.
                     (map IGood (merge_inputs c (c_t0 cm ++ c_t1 cm))) (bst0 (skipn (lvl + 2) (av (ws_bs w)))) = (s', TDone) ->
            Forall (fun ch => sizes_ok (chunk_kvs ch) = true /\ tfilt (chunk_kvs ch)) (fin s'))
     | BMove _ _ => True
-    | BTxn _ _ _ => False          (* transaction commits are not covered by this theorem *)
+    | BTxn recs hs num =>
+        Forall (rec_wf p) recs /\ ws_seq w + N.of_nat (length recs) < keyMaxSeq p /\ heights_okl mp hs /\
+        lenN (enc_recs p recs) < 2 ^ 63 /\
+        (forall f, In f (files_of (ws_bs w)) -> tf_num f <> num) /\
+        (forall d0 d' hs', MemDB.mdb_new mp = MemDB.Ok d0 ->
+           batch_putmem p (ibc c) mp (batch_of p recs) (ws_seq w + 1) d0 hs = PmOk d' hs' -> mem_pairs mp d' <> [] ->
+           sizes_ok (mem_pairs mp d') = true /\ tfilt (mem_pairs mp d'))
     | BSnap => True
     | BRelease _ => True
     end.
@@ -284,7 +290,39 @@ Section HistoryBytes.
       destruct (Hstep eq_refl) as (st' & Em' & B' & Emem & _ & _ & SE).
       rewrite Em in Em'. injection Em' as <-.
       apply (winv_rearrange w hs b' Inv B'); [exists d; rewrite Emem; exact Hd|exact SE].
-    - destruct Hop.
+    - (* a committed transaction *)
+      destruct Hop as (Hrw & Hsq' & Hhs & Hlen & Hfresh & Hsz).
+      destruct (b_txn_commit c p mp tp crc compress decompress fname ufc verify o recs hts num (ws_seq w) (ws_bs w)) as [b'|] eqn:Et; [|discriminate].
+      cbn [option_map] in Est. injection Est as <-.
+      assert (Hfz : bs_frozen (ws_bs w) = None).
+      { unfold b_txn_commit in Et. destruct (negb (mem_is_empty c mp (bs_mem (ws_bs w)))); [discriminate|].
+        destruct (bs_frozen (ws_bs w)); [discriminate|reflexivity]. }
+      assert (Hme : mem_is_empty c mp (bs_mem (ws_bs w)) = true).
+      { unfold b_txn_commit in Et. destruct (mem_is_empty c mp (bs_mem (ws_bs w))); [reflexivity|discriminate]. }
+      destruct (txn_step c ok p pok seek_val mp mpok tp tp_ok crc crc_bound compress decompress codec_ok compress_ne fname ufc verify o ri_pos
+                  (ws_bs w) recs hts num (ws_seq w) B Hfz Hme Hbd Hrw ltac:(lia) Hhs Hlen Hfresh Hsz) as (st' & Et' & B' & Em' & _ & SE).
+      rewrite Et in Et'. injection Et' as <-.
+      set (rs := map (norm_rec p) recs) in *.
+      assert (Elen : length rs = length recs) by (unfold rs; apply map_length).
+      assert (Ust : uniq_in (allE w ++ stamp (ws_seq w) rs)) by (apply uniq_old_stamp; [exact (bf_uniq _ _ _ _ _ _ _ _ _ _ _ B)|exact Hbd]).
+      set (h1 := hstep (hrun hs) (HWrite rs)).
+      assert (R : reorg_ok c p h1 (all_entries (absS b'))).
+      { apply (rearrangement_ok c ok p); unfold h1; cbn [hstep h_store]; rewrite Hst, Hsq; assumption. }
+      constructor; cbn [ws_bs ws_seq ws_snaps].
+      + exact B'.
+      + exists d. rewrite Em'. exact Hd.
+      + apply hops_ok_app'; [exact Hok|]. cbn [fold_left hops_ok hop_ok]. fold (hrun hs). fold h1.
+        split; [|split; [exact R|exact I]].
+        apply Forall_forall. intros r Hr. unfold rs in Hr. apply in_map_iff in Hr as ([[kt k0] v0] & <- & Hr0).
+        rewrite Forall_forall in Hrw. destruct (Hrw _ Hr0) as [Hk _]. cbn [fst] in Hk.
+        unfold norm_rec. destruct pok as (P1 & P2 & _). destruct (kt =? keyTypeVal p); cbn [fst]; destruct Hk as [-> | ->]; assumption.
+      + rewrite hrun_app. reflexivity.
+      + rewrite hrun_app. cbn [fold_left hstep h_seq]. rewrite Hsq. f_equal. f_equal. exact Elen.
+      + rewrite hrun_app. cbn [fold_left hstep h_snaps]. exact Hsn.
+      + intros x Hx. apply SE in Hx. apply in_app_or in Hx as [Hx|Hx]; [specialize (Hbd x Hx); lia|].
+        apply stamp_seq in Hx as [_ Hx]. eapply N.le_trans; [exact Hx|]. apply N.eq_le_incl. f_equal. f_equal. exact Elen.
+      + lia.
+      + destruct Hso as [S1 S2]. split; [exact S1|]. eapply Forall_impl; [|exact S2]. cbn beta. intros; lia.
     - (* GetSnapshot *)
       injection Est as <-. constructor; cbn [ws_bs ws_seq ws_snaps]; try assumption.
       + exists d. exact Hd.
